@@ -123,12 +123,13 @@ class Sim:
                     pending.remove(j)
 
 
-def make_config(jobs, **kw):
+def make_config(jobs, est_minutes=None, **kw):
     cfg = GenericCommandConfiguration()
     for n, b, f in jobs:
-        cfg.add_job(GenericCommandParameters(command="true", name=n, blocked_by=set(b), cancel_on_blocking_job_failure=f))
+        extra = {"estimated_run_minutes": est_minutes} if est_minutes is not None else {}
+        cfg.add_job(GenericCommandParameters(command="true", name=n, blocked_by=set(b), cancel_on_blocking_job_failure=f, **extra))
     cfg.assign_default_submission_group(SubmitterParams(generate_reports=False, resource_monitor_type="none",
-                                                        hpc_config=HpcConfig(hpc_type="slurm", hpc=SlurmConfig(account="x")), **kw))
+                                                        hpc_config=HpcConfig(hpc_type="slurm", hpc=SlurmConfig(account="x", walltime="01:00:00")), **kw))
     return cfg
 
 
@@ -322,7 +323,12 @@ def run_cancel(S, case):
     try:
         n = case["n"]
         jobs = [(f"j{i}", [f"j{i-1}"] if (i and rng.random() < 0.4) else [], False) for i in range(n)]
-        cfg = make_config(jobs, per_node_batch_size=case["size"], max_nodes=case["max_nodes"])
+        if case.get("time_based"):
+            # batching by estimated time (per_node_batch_size 0): a different code path collects the available jobs
+            cfg = make_config(jobs, per_node_batch_size=0, time_based_batching=True, num_parallel_processes_per_node=1, max_nodes=case["max_nodes"],
+                              est_minutes=case.get("est", 30))
+        else:
+            cfg = make_config(jobs, per_node_batch_size=case["size"], max_nodes=case["max_nodes"])
         CJ.time.sleep = lambda s: None
         CJ.run_command = lambda cmd: round_(out) or 0
         with contextlib.redirect_stdout(io.StringIO()), contextlib.redirect_stderr(io.StringIO()):
@@ -350,9 +356,9 @@ def run_cancel(S, case):
 
 
 def cases_cancel(tier, rng):
-    for _ in range(12 if tier == "quick" else 150):
+    for i in range(16 if tier == "quick" else 200):
         yield {"seed": rng.randint(0, 10**9), "n": rng.randint(2, 6), "size": rng.choice([1, 2]), "max_nodes": rng.choice([1, 2]),
-               "finish_first": rng.randint(0, 2)}
+               "finish_first": rng.randint(0, 2), "time_based": (i % 4) == 3, "est": rng.choice([20, 30, 45])}
 
 
 def run_to_completion(sim, out, rcs, rng, max_steps=80):
